@@ -242,7 +242,8 @@ func (g *c15gen) validValue(kind string) string {
 	case "string":
 		return []string{"v", "hello world", "a.b.c", "x=y", "UPPER", "with,comma", "uni-ü", "1234", "true", "-", `C:\temp\new`, `a\\b`, `say "hi"`, `tab\there`, `back\/slash`, `{brace}`, "{}", "[]", "<nil>"}[r.IntN(19)]
 	case "dir":
-		return filepath.Join(g.scratch, []string{"d1", "d2", "d3"}[r.IntN(3)])
+		// d1..d3 are directories; l1 is a symbolic link to d1 and "d2/" carries a trailing slash: legal spellings of a directory
+		return filepath.Join(g.scratch, []string{"d1", "d2", "d3", "l1"}[r.IntN(4)]) + []string{"", "", "", "/"}[r.IntN(4)]
 	case "fname":
 		return []string{"a.log", "b.log", "svc.out", "x"}[r.IntN(4)]
 	case "int", "int64":
@@ -921,6 +922,7 @@ func c15Worker(w *W) {
 		_ = os.MkdirAll(filepath.Join(scratch, d), 0755)
 	}
 	_ = os.WriteFile(filepath.Join(scratch, "notadir"), []byte("a regular file\n"), 0644)
+	_ = os.Symlink(filepath.Join(scratch, "d1"), filepath.Join(scratch, "l1"))
 	_ = os.MkdirAll(filepath.Join(w.Spec.Dir, "logs"), 0755) // the documented default fileDir, relative to the cwd
 	defer os.RemoveAll(scratch)
 	n := int(w.Spec.N)
